@@ -87,6 +87,10 @@ theorem avx_rightshift_int16 (a m : Vector (BitVec 16) 16) : esl_avx_rightshift_
 theorem avx512_rightshift_int8 (a m : Vector (BitVec 8) 64) : esl_avx512_rightshift_int8 a m = or_si (shiftRight 0 a) m := Simd.avx512_rightshift_int8 a m
 theorem avx512_rightshift_int16 (a m : Vector (BitVec 16) 32) : esl_avx512_rightshift_int16 a m = or_si (shiftRight 0 a) m := Simd.avx512_rightshift_int16 a m
 
+/-- with the documented mask `{ -inf, 0, …, 0 }` the integer right shifts fill lane 0 with `-inf`: `{ -inf, a0 … a(n-2) }` -/
+theorem rightshift_fill {w n : Nat} (a : Vector (BitVec w) n) (fill : BitVec w) :
+    or_si (shiftRight 0 a) (Vector.ofFn fun i => if i.val = 0 then fill else 0) = shiftRight fill a := Simd.rightshift_fill a fill
+
 /-! ## B. esl_sse_logf / esl_sse_expf: special values, all 2^32 patterns, any arithmetic -/
 /-- sign bit set (negative numbers, -0, -inf, negative-signed NaN) ↦ the all-ones pattern, a NaN -/
 theorem logf_negative (L : Lane32Ops) (x : UInt32) (h : 2 ^ 31 ≤ x.toNat) : esl_sse_logf_lane L x = 0xFFFFFFFF := Simd.logf_negative L x h
@@ -170,6 +174,10 @@ theorem relEntropyGo_spec (p q : List ℝ) (kl : ℝ) :
     relEntropyGo p q kl = if (∃ ab ∈ List.zip p q, 0 < ab.1 ∧ ab.2 = 0) then none else some (kl + (klTerms p q).sum) :=
   Vec.relEntropyGo_spec p q kl
 
+/-- base-2 analogue of `logSum_spec` -/
+theorem log2Sum_spec (v : List XR) (hv : ∀ x ∈ v, x.isLogP) (hfin : finites v ≠ []) :
+    ∃ r : ℝ, log2Sum v = some (XR.fin r) ∧
+      |r - Real.logb 2 ((finites v).map fun a => (2 : ℝ) ^ a).sum| ≤ v.length * (2 : ℝ) ^ (-500 : ℝ) / Real.log 2 := Vec.log2Sum_spec v hv hfin
 theorem isum_eq (v : List Int) : isum v = v.sum := Vec.isum_eq v
 theorem idot_eq (v w : List Int) : idot v w = (List.zipWith (· * ·) v w).sum := Vec.idot_eq v w
 
